@@ -34,6 +34,11 @@ FlagsAll == {"absent", "true", "false"}
 FlagAbsent == {"absent"}
 CreatorsBoth == {"other", "fastparquet-like"}
 CreatorOther == {"other"}
+PadNone == {0}
+PadsSmall == {0, 126, 253}
+PadsEdges == {0, 126, 253, 32766, 65533}      \* used indices straddle 2^7, 2^8, 2^15, 2^16
+WidthsMinPlus == {"min", "plus1"}
+Rows4 == {4}
 
 PageJson(p) == [a |-> p.a, b |-> p.b, v |-> p.v, enc |-> p.enc, def_runs |-> p.def_runs, index_runs |-> p.index_runs,
                 index_width |-> p.index_width, compressed |-> p.compressed]
@@ -41,6 +46,6 @@ Export == pc = "done" => PrintT(ToJson([kind |-> col.kind.name, n |-> col.n, opt
                                           creator |-> col.creator, nullpat |-> col.nullpat, valpat |-> col.valpat,
                                           cells |-> Cells,
                                           rgs |-> [g \in DOMAIN rgs |-> [a |-> rgs[g].a, b |-> rgs[g].b, dict |-> rgs[g].dict,
-                                                                          usedict |-> rgs[g].usedict,
+                                                                          usedict |-> rgs[g].usedict, pad |-> rgs[g].pad,
                                                                           pages |-> [p \in DOMAIN rgs[g].pages |-> PageJson(rgs[g].pages[p])]]]]))
 =============================================================================
